@@ -240,6 +240,31 @@ var apis = []apiInfo{
 	{"FindReaderSubmatchIndex", func(re *coregex.Regex, b []byte, s string, op *Op) string {
 		return fmt.Sprint(re.FindReaderSubmatchIndex(strings.NewReader(s)))
 	}, 0, false, 1, true},
+	// accessors and template expansion: read-only views of the compiled value that callers
+	// use next to (and concurrently with) searches
+	{"Metadata", func(re *coregex.Regex, b []byte, s string, op *Op) string {
+		lp, full := re.LiteralPrefix()
+		mt, err := re.MarshalText()
+		names := re.SubexpNames()
+		idx := -2
+		if len(names) > 1 {
+			idx = re.SubexpIndex(names[len(names)-1])
+		}
+		return fmt.Sprintf("%d %q %d %q %q %v %q %v", re.NumSubexp(), names, idx, re.String(), lp, full, mt, err)
+	}, 0, false, 2, false},
+	{"Expand", func(re *coregex.Regex, b []byte, s string, op *Op) string {
+		m := re.FindSubmatchIndex(b)
+		dst := re.Expand([]byte("^"), []byte(op.Arg+"|${1}|$name|$0"), b, m)
+		ms := re.FindStringSubmatchIndex(s)
+		return fmt.Sprintf("%q %q", dst, re.ExpandString(nil, op.Arg, s, ms))
+	}, 0, true, 2, true},
+	{"PkgMatch", func(re *coregex.Regex, b []byte, s string, op *Op) string {
+		// package-level one-shot helpers compile the same pattern again (package-global pools
+		// and caches are the only state they can share with re)
+		m1, e1 := coregex.Match(re.String(), b)
+		m2, e2 := coregex.MatchString(re.String(), s)
+		return fmt.Sprint(m1, e1, m2, e2, re.Match(b))
+	}, 0, false, 1, false},
 	// lower-level engine API
 	{"Engine.IsMatch", func(re *coregex.Regex, b []byte, s string, op *Op) string {
 		return fmt.Sprint(re.VerifEngine().IsMatch(b))
